@@ -179,6 +179,11 @@ class Replayer:
         da, db = (a[i] if i < len(a) else "<end>"), (b[i] if i < len(b) else "<end>")
         n = len(script["steps"])
         at = "the end" if m["step"] > n else f"step {m['step']}"
+        from lib import match_known
+        if match_known(self.chk.known, key) is not None:
+            self.chk.violation(key, {}, "")   # prints the KNOWN-FINDING line once
+            self.known_seen = getattr(self, "known_seen", 0) + 1
+            return
         self.reported += 1
         if self.reported > 12:
             self.suppressed += 1
